@@ -338,6 +338,10 @@ fn sets(nreq: usize, three: bool) -> Vec<SetSpec> {
         // segments that are not UTF-8 have no string form; they are still different paths
         SetSpec { name: "non-utf8-segment([ff]-vs-root)", transfers: vec![upload_script(1, 3, &[&[0xff][..]], 0, nreq, 0, "PUT [ff]"), upload_script(1, 3, &none, 0, nreq, 0, "PUT []")] },
         SetSpec { name: "non-utf8-segments([a,fe]-vs-[b,c3 28])", transfers: vec![download_script(1, &[b"a", &[0xfe][..]], 0, nreq, "GET [a,fe]"), download_script(1, &[b"b", &[0xc3, 0x28][..]], 0, nreq, "GET [b,c3 28]")] },
+        // paths that differ only in WHICH invalid bytes they contain (equal after a lossy conversion to text)
+        SetSpec { name: "non-utf8-twins([fw,img ff]-vs-[fw,img fe])", transfers: vec![download_script(1, &[b"fw", &[b'i', b'm', b'g', 0xff][..]], 0, nreq, "GET [fw,img ff]"), download_script(1, &[b"fw", &[b'i', b'm', b'g', 0xfe][..]], 0, nreq, "GET [fw,img fe]")] },
+        SetSpec { name: "non-utf8-twins([ff]-vs-[U+FFFD])", transfers: vec![upload_script(1, 3, &[&[0xff][..]], 0, nreq, 0, "PUT [ff]"), upload_script(1, 3, &[&[0xef, 0xbf, 0xbd][..]], 0, nreq, 0, "PUT [ef bf bd]")] },
+        SetSpec { name: "non-utf8-twins([c0 80,x]-vs-[80 80,x])", transfers: vec![upload_script(1, 2, &[&[0xc0, 0x80][..], b"x"], 0, nreq, 0, "POST [c0 80,x]"), upload_script(1, 2, &[&[0x80, 0x80][..], b"x"], 0, nreq, 0, "POST [80 80,x]")] },
         // escapes a flattened key might use for '/' inside a segment
         SetSpec { name: "percent-escape([fw/slot]-vs-[fw%2Fslot])", transfers: vec![upload_script(1, 3, &[b"fw/slot"], 0, nreq, 0, "PUT [fw/slot]"), upload_script(1, 3, &[b"fw%2Fslot"], 0, nreq, 0, "PUT [fw%2Fslot]")] },
         SetSpec { name: "percent-escape-lowercase([a/b]-vs-[a%2fb])", transfers: vec![download_script(1, &[b"a/b"], 0, nreq, "GET [a/b]"), download_script(1, &[b"a%2fb"], 0, nreq, "GET [a%2fb]")] },
